@@ -1333,7 +1333,7 @@ func (p *scionPacketProcessor) validateTransitUnderlaySrc() disposition {
 
 	// Is that the link that the packet came through (e.g. not the internal link)? The
 	// comparison should be cheap. Links are implemented by pointers.
-	if ingressLink != p.pkt.Link {
+	if ingressLink != p.pkt.Link || ingressLink.Scope() != Sibling {
 		// Drop
 		return errorDiscard("error", errInvalidSrcAddrForTransit)
 	}
